@@ -127,3 +127,101 @@ Definition suite_C15 (inp obs : list tok) : verdict :=
         {| v_model := enc15 (run_C15 c probe); v_ok := ok_C15 c o; v_wellformed := true |}
       else malformed
   | _, _ => malformed end.
+
+(* ------------------------------------------------------------------ Xen build
+   case:  mode size hasfile filelen start hasprot prot hasflags flags addr mflags mdata hasbase base page ioctl
+   obs:   probe res size prot flags hasfile start samefd xflags xdata ptrnull pos d1 d2 [ev*] live *)
+From VM Require Import Impl.Xen.
+
+Definition os_of_x (c : case15x) (probe : N) : os :=
+  {| os_page := cx_page c;
+     os_filesize := match cx_file c with Some (flen, _) => flen | None => 0 end;
+     os_mmap_ok := probe =? 1; os_ioctl_ok := cx_ioctl c |}.
+
+Definition range_of (c : case15x) : xrange :=
+  {| x_size := cx_size c; x_file := match cx_file c with Some (_, s) => Some s | None => None end;
+     x_prot := cx_prot c; x_flags := cx_flags c; x_addr := cx_addr c; x_mflags := cx_mflags c;
+     x_mdata := cx_mdata c |}.
+
+Definition construct_x (c : case15x) (o : os) : outcome (res xregion * list ev) :=
+  let* (r, l) := xen_from_range (cx_mode c) o (range_of c) in
+  match r with
+  | Err e => Val (Err e, l)
+  | Ok g =>
+      match cx_base c with
+      | None => Val (Ok g, l)
+      | Some b => let* (r2, l2) := xen_guest_region_new (cx_mode c) o g b in Val (r2, l ++ l2)
+      end
+  end.
+
+Definition enc_xev (e : ev) : list N :=
+  match e with
+  | EvIoctlMap g c i true => [1; g; c; i]
+  | EvIoctlUnmap i c => [2; i; c]
+  | EvIoctlForeign c ok => [3; c; if ok then 1 else 0]
+  | _ => [] end.
+
+Definition obs_err_x (probe code pos d2 : N) (evs : list N) (live : N) : obs15x :=
+  {| ox_probe := probe; ox_res := code; ox_size := 0; ox_prot := 0; ox_flags := 0; ox_hasfile := false;
+     ox_start := 0; ox_samefd := false; ox_xflags := 0; ox_xdata := 0; ox_ptrnull := false; ox_pos := pos;
+     ox_d1 := 0; ox_d2 := d2; ox_evs := evs; ox_live := live |}.
+
+Definition run_C15x (c : case15x) (probe : N) : obs15x :=
+  let o := os_of_x c probe in
+  match construct_x c o with
+  | Val (r, l) =>
+      let pos := match cx_file c with Some _ => if has_rewind l then 0 else 7 | None => 0 end in
+      match r with
+      | Err e => obs_err_x probe (berr_code e) pos (Z.to_N (foot (cx_page c) l)) (flat_map enc_xev l)
+                           (N.of_nat (length (live_after [] l)))
+      | Ok g =>
+          match xen_drop (cx_mode c) o g with
+          | Val ld =>
+            {| ox_probe := probe; ox_res := 0; ox_size := xr_size g; ox_prot := xr_prot g;
+               ox_flags := xr_flags g;
+               ox_hasfile := match xr_file g with Some _ => true | None => false end;
+               ox_start := match xr_file g with Some s => s | None => 0 end;
+               ox_samefd := match xr_file g with Some _ => true | None => false end;
+               ox_xflags := xr_mflags g; ox_xdata := xr_mdata g;
+               ox_ptrnull := match xr_mapped g with None => true | Some _ => false end;
+               ox_pos := pos; ox_d1 := Z.to_N (foot (cx_page c) l);
+               ox_d2 := Z.to_N (foot (cx_page c) (l ++ ld));
+               ox_evs := flat_map enc_xev (l ++ ld);
+               ox_live := N.of_nat (length (live_after [] (l ++ ld))) |}
+          | _ => obs_err_x probe 99 pos 0 [] 0
+          end
+      end
+  | _ => obs_err_x probe 99 (match cx_file c with Some _ => 7 | None => 0 end) 0 [] 0
+  end.
+
+Definition enc15x (o : obs15x) : list tok :=
+  [TN (ox_probe o); TN (ox_res o); TN (ox_size o); TN (ox_prot o); TN (ox_flags o); bool_tok (ox_hasfile o);
+   TN (ox_start o); bool_tok (ox_samefd o); TN (ox_xflags o); TN (ox_xdata o); bool_tok (ox_ptrnull o);
+   TN (ox_pos o); TN (ox_d1 o); TN (ox_d2 o); TL (ox_evs o); TN (ox_live o)].
+
+Definition suite_C15xen (inp obs : list tok) : verdict :=
+  match inp, obs with
+  | [TN md; TN size; TN hasfile; TN flen; TN start; TN hasprot; TN prot; TN hasflags; TN flags; TN addr;
+     TN mflags; TN mdata; TN hasbase; TN base; TN page; TN ioc],
+    [TN probe; TN res; TN osz; TN oprot; TN oflags; TN ohf; TN ostart; TN osame; TN oxf; TN oxd; TN onull;
+     TN opos; TN d1; TN d2; TL evs; TN live] =>
+      if (size <? W64) && (prot <? 4294967296) && (flags <? 4294967296) && (flen <? W64) && (start <? W64) &&
+         (addr <? W64) && (base <? W64) && (mflags <? 4294967296) && (mdata <? 4294967296) &&
+         is_pow2_page page && (probe <? 3)
+      then
+        let c := {| cx_mode := if md =? 0 then Debug else Release; cx_size := size;
+                    cx_file := if negb (hasfile =? 0) then Some (flen, start) else None;
+                    cx_prot := if negb (hasprot =? 0) then Some prot else None;
+                    cx_flags := if negb (hasflags =? 0) then Some flags else None;
+                    cx_addr := addr; cx_mflags := mflags; cx_mdata := mdata;
+                    cx_base := if negb (hasbase =? 0) then Some base else None;
+                    cx_page := page; cx_ioctl := negb (ioc =? 0) |} in
+        let o := {| ox_probe := probe; ox_res := res; ox_size := osz; ox_prot := oprot; ox_flags := oflags;
+                    ox_hasfile := negb (ohf =? 0); ox_start := ostart; ox_samefd := negb (osame =? 0);
+                    ox_xflags := oxf; ox_xdata := oxd; ox_ptrnull := negb (onull =? 0); ox_pos := opos;
+                    ox_d1 := d1; ox_d2 := d2; ox_evs := evs; ox_live := live |} in
+        {| v_model := enc15x (run_C15x c probe); v_ok := ok_C15x c o; v_wellformed := true |}
+      else malformed
+  | _, _ => malformed end.
+
+Definition suite_C15xenfind (inp obs : list tok) : verdict := suite_C15xen inp obs.
